@@ -25,7 +25,13 @@ def try_from_json(type, value):
 
 
 def try_as_directory(path):
-    return path.as_directory() if path is not None else None
+    # Always make a *host* path: the target platform's defaults have the
+    # target's flavour (e.g. backslashes for a Windows target), but the build
+    # files are used on the host, and this is also what reloading the saved
+    # environment produces.
+    if path is None:
+        return None
+    return Path(path.suffix, path.root, path.destdir, directory=True)
 
 
 class EnvVersionError(RuntimeError):
